@@ -142,7 +142,8 @@ def closureFuel : Nat := 400
 def candCap : Nat := 4000
 
 /-- all candidates reachable by hidden labels (including the starting ones); `none` when the bound is hit -/
-def hiddenClosure (sc : HScn) (start : List HCand) : Option (List HCand) := Id.run do
+def hiddenClosureN (sc : HScn) (start : List HCand) : Option (List HCand) × Nat := Id.run do
+  let mut work := 0
   let mut seen : Std.HashSet HCand := {}
   let mut order : Array HCand := #[]
   let mut frontier : List HCand := []
@@ -154,13 +155,16 @@ def hiddenClosure (sc : HScn) (start : List HCand) : Option (List HCand) := Id.r
     fuel := fuel - 1
     let mut next : List HCand := []
     for cd in frontier do
+      work := work + 1
       for cd' in hiddenSucc sc cd do
         if !seen.contains cd' then
           seen := seen.insert cd'; order := order.push cd'; next := cd' :: next
     frontier := next
-    if order.size > candCap then return none
-  if !frontier.isEmpty then return none
-  return some order.toList
+    if order.size > candCap then return (none, work)
+  if !frontier.isEmpty then return (none, work)
+  return (some order.toList, work)
+
+def hiddenClosure (sc : HScn) (start : List HCand) : Option (List HCand) := (hiddenClosureN sc start).1
 
 /-- nothing is runnable: every goroutine is durably blocked (what `synctest.Wait()` waits for) -/
 def quiescent (sc : HScn) (cd : HCand) : Bool :=
@@ -189,26 +193,27 @@ def fireDue (sc : HScn) (cd : HCand) : HCand :=
   let cd := (stepC sc cd .fireC).getD cd
   (stepC sc cd .fireA).getD cd
 
-/-- let virtual time pass up to `t`; silent instants in between must not need any visible label -/
-partial def advanceTo (sc : HScn) (cands : List HCand) (t : Nat) (fuel : Nat) : Option (List HCand) :=
-  match fuel with
-  | 0 => none
-  | fuel + 1 =>
-    match hiddenClosure sc cands with
+/-- let virtual time pass up to `t`; silent instants in between must not need any visible label.
+`budget` bounds the closure work; `none` = bound hit (inconclusive) -/
+partial def advanceTo (sc : HScn) (cands : List HCand) (t : Nat) (budget : Nat) : Option (List HCand × Nat) :=
+  let (clo, w) := hiddenClosureN sc cands
+  let spent := w + cands.length + 1
+  if spent > budget then none else
+  match clo with
+  | none => none
+  | some cl =>
+    let (atT, before) := cl.partition (fun cd => cd.st.now ≥ t)
+    let q := before.filter (quiescent sc)
+    if q.isEmpty then some (atT, budget - spent) else
+    let moved := q.filterMap fun cd =>
+      let target := match nextDeadline cd.st with
+        | some d => if d < t then d else t
+        | none => t
+      if target ≤ cd.st.now then none else
+      (stepC sc cd (.advance (target - cd.st.now))).map (fireDue sc)
+    match advanceTo sc moved t (budget - spent) with
     | none => none
-    | some cl =>
-      let (atT, before) := cl.partition (fun cd => cd.st.now ≥ t)
-      let q := before.filter (quiescent sc)
-      if q.isEmpty then some atT else
-      let moved := q.filterMap fun cd =>
-        let target := match nextDeadline cd.st with
-          | some d => if d < t then d else t
-          | none => t
-        if target ≤ cd.st.now then none else
-        (stepC sc cd (.advance (target - cd.st.now))).map (fireDue sc)
-      match advanceTo sc moved t fuel with
-      | none => none
-      | some r => some (atT ++ r)
+    | some (r, left) => some (atT ++ r, left)
 
 /-! ### visible entries -/
 
@@ -337,6 +342,7 @@ def parseHScn (inp : KV) : HScn :=
 /-- returns (mismatch description, inconclusive?) -/
 def acceptHist (sc : HScn) (cap0 : Nat) (entries : List String) : Option String × Bool := Id.run do
   let mut maxC := 0
+  let mut work := 0
   let init : HCand := {
     st := St.init sc.c, calls := [], hooked := [], reported := [], cap := cap0, costs := [],
     pendingPause := 0, cbMap := [], cbStarted := [], stopWaiters := [], owed := [] }
@@ -347,15 +353,19 @@ def acceptHist (sc : HScn) (cap0 : Nat) (entries : List String) : Option String 
     let t := ((f.getD 0 "").toNat?).getD 0
     -- 1. time
     if cands.any (fun cd => cd.st.now < t) then
-      match advanceTo sc cands t 10000 with
+      match advanceTo sc cands t (400000 - work) with
       | none => return (some s!"at entry[{idx}]={e} while advancing time, candidates={cands.length}", true)
-      | some r =>
+      | some (r, left) =>
+        work := 400000 - left
         if r.isEmpty then
           let d := (cands.head?.map describe).getD ""
           return (some s!"fields=time entry[{idx}]={e} cannot-let-time-pass-silently model: {d}", false)
         cands := r
     -- 2. hidden steps, then the entry itself
-    match hiddenClosure sc cands with
+    let (clo, w) := hiddenClosureN sc cands
+    work := work + w + cands.length
+    if work > 400000 then return (some s!"at entry[{idx}]={e} work budget exhausted", true)
+    match clo with
     | none => return (some s!"at entry[{idx}]={e} in hidden closure, candidates={cands.length} e.g. {" || ".intercalate ((cands.take 4).map describe)} REPR {" @@ ".intercalate ((cands.take 4).map fun cd => (toString (repr cd.st)).replace "\n" " " ++ s!" HOOK{cd.hooked} CBS{cd.cbStarted} COSTS{cd.costs} SW{cd.stopWaiters} OW{cd.owed} CAP{cd.cap}")}", true)
     | some cl =>
       maxC := max maxC cl.length
